@@ -137,8 +137,11 @@ def main():
   gen = qtoolsops.emit(vlib.GEN)
   from translate import layermapgen
   lmgen = layermapgen.emit(vlib.GEN)
-  info = vlib.build_obligations(PROP, gen_files=[gen, lmgen], extra_files=[os.path.join(vlib.COQ, "theories", "Link", "QToolsLink.v"),
-                                                                          os.path.join(vlib.COQ, "theories", "Link", "LayerMapLink.v")])
+  from translate import estgen
+  esgen = estgen.emit(vlib.GEN)
+  info = vlib.build_obligations(PROP, gen_files=[gen, lmgen, esgen], extra_files=[os.path.join(vlib.COQ, "theories", "Link", "QToolsLink.v"),
+                                                                                 os.path.join(vlib.COQ, "theories", "Link", "LayerMapLink.v"),
+                                                                                 os.path.join(vlib.COQ, "theories", "Link", "EstLink.v")])
   errs = rep.obligations(info, "coqc -Q coq/theories QV coq/theories/Properties/C18.v")
   for e in errs:
     rep.violation("obligation-" + os.path.basename(e["file"]), "proof obligation no longer checks: " + e["error"][-400:],
